@@ -221,9 +221,9 @@ theorem init_get (covOn : Bool) (raw : Tbl → T LCell) : ∀ (init : List (Var 
     · right
       exact ⟨vt.2, by simp [initEnv, AEnv.get, hx], by simp [lInit, LEnv.get, hx]⟩
     · have e1 : (initEnv covOn (vt :: init)).get x = (initEnv covOn init).get x := by
-        simp [initEnv, AEnv.get, List.find?, hx]
+        simp [initEnv, AEnv.get, hx]
       have e2 : (lInit covOn (vt :: init) raw).get x = (lInit covOn init raw).get x := by
-        simp [lInit, LEnv.get, List.find?, hx]
+        simp [lInit, LEnv.get, hx]
       rw [e1, e2]
       exact ih
 
